@@ -131,6 +131,8 @@ func ExecRun(t *testing.T, spec RunSpec) (res RunResult) {
 	return res
 }
 
+var debugFinal func(f *Flow)
+
 var gcIsOff bool
 var runsSinceGC int
 
@@ -157,7 +159,7 @@ func gcBetweenRuns() {
 
 // RunFlow executes the general client scenario for one incarnation.
 func RunFlow(w *World, spec *RunSpec, tune func(f *Flow)) *Flow {
-	f := &Flow{W: w, byTopic: map[string]*Pub{}, byID: map[uint16]*Pub{}, reqByMarker: map[string]*Req{}, handed: map[uint32][]HandedRef{}, Owned: map[uint16]int{}, OnlineConn: -1}
+	f := &Flow{W: w, byTopic: map[string]*Pub{}, byID: map[uint16]*Pub{}, reqByMarker: map[string]*Req{}, handed: map[uint32][]HandedRef{}, LastReadTime: map[int]time.Duration{}, Owned: map[uint16]int{}, OnlineConn: -1}
 	w.X = f
 	f.O = drawFlowOpts(w.Tape, spec.Thorough)
 	if tune != nil {
@@ -173,6 +175,10 @@ func RunFlow(w *World, spec *RunSpec, tune func(f *Flow)) *Flow {
 		return q
 	}
 	w.Broker.Opts.Refuse = f.Refuse
+	f.HostileLeft = f.O.HostileN
+	if f.O.HostileHandshake > 0 {
+		w.Broker.HandshakeHook = f.hostileHandshake
+	}
 	w.Budget = f.O.Budget
 	if f.O.Generations < 1 {
 		f.O.Generations = 1
@@ -219,8 +225,10 @@ func RunFlow(w *World, spec *RunSpec, tune func(f *Flow)) *Flow {
 			f.OnStop(f.S)
 		}
 	}
-	res := f
-	for _, m := range res.Mon {
+	if debugFinal != nil {
+		debugFinal(f)
+	}
+	for _, m := range f.Mon {
 		m.Final(f)
 	}
 	return f
@@ -241,6 +249,7 @@ func (f *Flow) runGeneration(adopt bool) {
 		}
 		s.StepHook = f.stepHook
 		s.Done = f.done
+		s.OnLoopEnd = func() { f.ReaderInEnd = f.ReaderIn }
 		s.Unwind = func() {
 			if f.C != nil {
 				c := f.C
@@ -428,7 +437,7 @@ func (f *Flow) stuckWhere() string {
 }
 
 func allMonitors() []Monitor {
-	return []Monitor{&monC12{}, &monC15{}, &monC16{}, &monC01{}, &monC02{}, &monC03{}, &monC04{}, &monC05{}, &monC06{}, &monC07{}, &monC08{}, &monC10{}, &monC11{}, &monC14{}, &monC17{}, &monC18{}}
+	return []Monitor{&monC12{}, &monC13{}, &monC15{}, &monC16{}, &monC01{}, &monC02{}, &monC03{}, &monC04{}, &monC05{}, &monC06{}, &monC07{}, &monC08{}, &monC10{}, &monC11{}, &monC14{}, &monC17{}, &monC18{}}
 }
 
 // flowFamily builds a family around the general flow. touched names the probes
@@ -468,7 +477,7 @@ func (f *Flow) summary() string {
 		keys = append(keys, fmt.Sprintf("%s=%d", k, v))
 	}
 	sort.Strings(keys)
-	return fmt.Sprintf("pubs=%d accepted=%d completed=%d conns=%d steps=%d simtime=%v faults=%v", len(f.Pubs), acc, done, len(f.W.AllConns), f.W.Steps, f.W.SimTime, keys)
+	return fmt.Sprintf("pubs=%d accepted=%d completed=%d conns=%d steps=%d simtime=%v pause=%v readbuf=%d faults=%v", len(f.Pubs), acc, done, len(f.W.AllConns), f.W.Steps, f.W.SimTime, f.O.PauseTimeout, f.O.ReadBuf, keys)
 }
 
 func init() {
@@ -630,6 +639,23 @@ func init() {
 			o.InQ = [3]int{0, 1, 3}
 			o.FaultFreeAfterStop = false
 		}, "load_damaged")})
+	register("C13", Family{Name: "hostile", Weight: 1, Run: flowFamily(func(f *Flow) {
+		o := &f.O
+		o.HostileN = 1 + f.W.Tape.Draw("nhostile", 4)
+		if f.W.Tape.Flip("hhs-on", 400) {
+			o.HostileHandshake = 300
+		}
+		o.Publishers = f.W.Tape.Draw("npub13", 3)
+		o.Requesters = f.W.Tape.Draw("nreq13", 3)
+		o.PerReq = 2 + f.W.Tape.Draw("perreq13", 3)
+		o.Inbound = f.W.Tape.Draw("nin13", 5)
+		o.InSizeMix = [4]int{4, 2, 2, 1}
+		o.QuitMix = [4]int{4, 0, 1, 1}
+		if o.ReadBuf > 4096 {
+			o.ReadBuf = 256
+		}
+		o.Clean = false
+	}, "violation_reset", "stall_timed_out")})
 	closeTune := func(f *Flow) {
 		o := &f.O
 		o.Closers = 1 + f.W.Tape.Draw("nclosers", 3)
